@@ -27,7 +27,7 @@ KINDS = ['ResA', 'DecoA', 'LoggerA', 'SpanA', 'MetricA', 'AllInOne', 'Missing', 
 ORDERS = ['asc', 'desc', 'equal', 'none']
 PATHS = {'ResA': 'mc.plugs.ResA', 'DecoA': 'mc.plugs.DecoA', 'LoggerA': 'mc.plugs.LoggerA', 'SpanA': 'mc.plugs.SpanA', 'MetricA': 'mc.plugs.MetricA',
          'AllInOne': 'mc.plugs.AllInOne', 'Missing': 'no.such.module.Plugin', 'CtorRaises': 'mc.plugs.DecoB', 'SwitchedOff': 'mc.plugs.DefaultActivation',
-         'SpanB': 'mc.plugs.SpanB', 'MetricB': 'mc.plugs.MetricB', 'ResB': 'mc.plugs.ResB'}
+         'SpanB': 'mc.plugs.SpanB', 'MetricB': 'mc.plugs.MetricB', 'ResB': 'mc.plugs.ResB', 'SwitchedOff2': 'mc.plugs.DefaultActivation2'}
 LIVE = {'ResA', 'DecoA', 'LoggerA', 'SpanA', 'MetricA', 'AllInOne', 'SpanB', 'MetricB', 'ResB'}
 PROGRAM = 'def f():\n    x = 1\n    y = 2\n    return x + y\n'
 
@@ -43,7 +43,10 @@ def cases(tier, seed):
         sets += list(itertools.combinations(KINDS, n))
     # same-type pairs (two span / metric / resource providers: the second must survive the first one's failure)
     sets += [('SpanA', 'SpanB'), ('MetricA', 'MetricB'), ('ResA', 'ResB'), ('SpanA', 'SpanB', 'DecoA'), ('MetricA', 'MetricB', 'LoggerA'),
-             ('SpanB', 'SpanA'), ('MetricB', 'MetricA')]
+             ('SpanB', 'SpanA'), ('MetricB', 'MetricA'),
+             # runs of plugins that are skipped (switched off / failing to construct / missing) next to each other
+             ('SwitchedOff', 'SwitchedOff2'), ('SwitchedOff', 'SwitchedOff2', 'DecoA'), ('DecoA', 'SwitchedOff', 'SwitchedOff2'),
+             ('SwitchedOff2', 'SwitchedOff', 'LoggerA'), ('CtorRaises', 'SwitchedOff', 'SwitchedOff2'), ('Missing', 'SwitchedOff', 'SwitchedOff2')]
     for s in sets:
         for o in ORDERS if len(s) > 1 else ['asc']:
             out.append({'set': list(s), 'orders': o})
@@ -84,6 +87,8 @@ def scenario(desc, fault_at=None, fault_pair=None):
     custom = {'PLUGINS': [PATHS[n] for n in names], 'NO_TRACE': True}
     if 'SwitchedOff' in names:
         custom['PLUGIN_DEFAULTACTIVATION'] = 'False'
+    if 'SwitchedOff2' in names:
+        custom['PLUGIN_DEFAULTACTIVATION2'] = 'false'
     obs = {'start_exc': None, 'shutdown_exc': None, 'escaped': [], 'loaded': None}
     with rig.DeepWorld(custom=custom, channel=chan) as w:
         try:
